@@ -186,9 +186,19 @@ static int do_open(const char *path, int flags, mode_t mode, int which, int dirf
         errno = e;
         return fd;
     }
-    return which == 0 ? real_open64(path, flags, mode)
-         : which == 1 ? real_open(path, flags, mode)
-                      : real_openat(dirfd, path, flags, mode);
+    {
+        int fd = which == 0 ? real_open64(path, flags, mode)
+               : which == 1 ? real_open(path, flags, mode)
+                            : real_openat(dirfd, path, flags, mode);
+        int e = errno;
+        if (fd >= 0 && fd < MAXFD && fdname[fd]) {   /* a reused number must not inherit a store file's name */
+            pthread_mutex_lock(&mu);
+            free(fdname[fd]); fdname[fd] = NULL;
+            pthread_mutex_unlock(&mu);
+        }
+        errno = e;
+        return fd;
+    }
 }
 
 int open64(const char *path, int flags, ...) {
@@ -299,7 +309,8 @@ int unlink(const char *path) { return do_unlink(path, 0, 0, 0); }
 int unlinkat(int dirfd, const char *path, int flags) { return do_unlink(path, 1, dirfd, flags); }
 
 int close(int fd) {
-    if (enabled && fd >= 0 && fd < MAXFD && fdname[fd]) {
+    /* always forget the name, also while recording is switched off: descriptor numbers are reused */
+    if (fd >= 0 && fd < MAXFD && fdname[fd]) {
         pthread_mutex_lock(&mu);
         free(fdname[fd]); fdname[fd] = NULL;
         pthread_mutex_unlock(&mu);
